@@ -1581,6 +1581,18 @@ package http2
 //@ |      closedOldest == (old(closedOldest) + 1) % 256 &&
 //@ |      forall(i, 0, len(closedRing), i != old(closedOldest) ==> closedRing[i] == old(closedRing)[i]))
 //@ ensures ok: ringOK(closedRing, closedOldest)
+//@ # what the table of closed ids forgets is the id that sat in the oldest slot: the ring and the table hold the same ids, so
+//@ # the table stays as small as the ring (C13) and an id is forgotten only after 256 later closes (C08)
+//@ assert@call:delete#1 forgets: arg1 == old(closedRing)[old(closedOldest)]
+
+//@ func (*serverConn).Serve
+//@ props C17
+//@ requires recv: scOK(sc) && sc.br != nil && hpackOK(sc.enc) && sc.c != nil
+//@ opt noframe=true
+//@ opt noovf=true
+//@ # Whichever way Serve ends, the frame channel is closed exactly once: the stream loop and the write loop are running by
+//@ # then, and closing the channel is what unwinds the first, which stops the second (no goroutine stays behind)
+//@ ensures unwound: called(close.serverConn.reader) == 1
 
 //@ func (*serverConn).handleStreams.releaseStream
 //@ inline
